@@ -64,6 +64,44 @@ def u_tau2_transition(ip):
     c.oblige("reads_the_given_state", all(ms is state for ms, _ in c.ghost.get("reads", [])))
 
 
+@unit("C13.np_smooth_group_is_the_priors_parameters", "C13", [f"{DR}::DistRegBuilder.add_np_smooth", f"{DR}::DistRegBuilder.add_predictor", f"{DR}::DistRegBuilder.add_response", f"{N}::Group.__init__"],
+      summaries=["MultivariateNormalDegenerate.from_penalty (C18 / C13.tau2_conditional_identity)"],
+      assumptions=["the penalty's rank is an arbitrary integer (full rank and rank-deficient penalties)", "A-TFP: distribution families as uninterpreted densities of their arguments"], max_paths=64)
+def u_np_smooth_group(ip):
+    """the glue between the kernel and the model: the group tau2_gibbs_kernel reads (a, b, rank, K, beta, tau2) consists of exactly the quantities
+    that parameterise the model's prior - beta ~ from_penalty(loc=0, var=tau2, pen=K, rank=rank) and tau2 ~ InverseGamma(a, b), each input being the
+    group member ITSELF (not a quantity derived from it) - so the conditional the kernel draws from (C13.tau2_transition) is the model's
+    (C13.tau2_conditional_identity)."""
+    c = ip.ctx
+    from contracts.c02 import distreg_builder
+    b = distreg_builder(ip, int_rank=True)
+    groups = ip.call(method(ip, b, "groups"), [], {})
+    c.oblige("one_group_per_smooth", sorted(groups) == ["loc_np0", "loc_p0", "scale_p0"])
+    grp = groups["loc_np0"]
+    mem = grp.f["_nodes_and_vars"]
+    c.oblige("group_members", sorted(mem) == sorted(["smooth", "beta", "tau2", "rank", "X", "K", "a", "b"]))
+
+    def feeds(var_or_node):  # the node a variable / node contributes as an input
+        return ip.getattr(var_or_node, "var_value_node") if var_or_node.clsname == "Var" or ip.truth(ip.models["builtins.isinstance"](ip, var_or_node, ip.repo(f"{N}::Var"))) else var_or_node
+
+    bd = ip.getattr(mem["beta"], "dist_node")
+    kw = bd.f["_kwinputs"]
+    c.oblige("beta_prior_inputs_are_the_group_members", sorted(kw) == ["loc", "pen", "rank", "var"] and kw["var"] is feeds(mem["tau2"]) and kw["pen"] is feeds(mem["K"]) and kw["rank"] is feeds(mem["rank"])
+             and len(bd.f["_inputs"]) == 0, inputs=str({k: str(ip.getattr(v, "name")) for k, v in kw.items()}))
+    loc = kw.get("loc")
+    c.oblige("beta_prior_is_centred_at_zero", loc is not None and loc.clsname in ("Value", "Data") and ip.getattr(loc, "value") == 0.0)
+    td = ip.getattr(mem["tau2"], "dist_node")
+    tkw = td.f["_kwinputs"]
+    c.oblige("tau2_prior_inputs_are_the_group_members", sorted(tkw) == ["concentration", "scale"] and tkw["concentration"] is feeds(mem["a"]) and tkw["scale"] is feeds(mem["b"]) and len(td.f["_inputs"]) == 0)
+    # the families: evaluate both distribution nodes' functions on marker arguments
+    d_beta = ip.call(bd.f["_distribution"], [], {"loc": 0.0, "var": z3.Const("m_var", U), "pen": z3.Const("m_pen", U), "rank": z3.Const("m_rank", U)})
+    d_tau2 = ip.call(td.f["_distribution"], [], {"concentration": z3.Const("m_a", U), "scale": z3.Const("m_b", U)})
+    c.oblige("families", d_beta.attrs.get("family") == "MVNDegen" and d_tau2.attrs.get("family") == "InverseGamma")
+    # the values the group members hold are the arguments the builder was given
+    c.oblige("members_hold_the_given_quantities", ip.to_U(ip.getattr(mem["K"], "value")).eq(z3.Const("K2", U)) and ip.getattr(mem["a"], "value") == 1.0 and ip.getattr(mem["b"], "value") == 0.5
+             and ip.to_U(ip.getattr(mem["rank"], "value")).eq(ip.to_U(ip.uf("matrix_rank", z3.Const("K2", U), sort=Int))))
+
+
 @unit("C13.group_value_from", "C13", [f"{N}::Group.value_from", f"{N}::Group.__getitem__", f"{N}::Group.__init__"])
 def u_value_from(ip):
     """Group.value_from(state, name) reads the member's value from the GIVEN state: for a variable its value node's entry, for a
